@@ -152,13 +152,14 @@ func fnCanon(f *ssa.Function) string {
 }
 
 type termer struct {
-	memo  map[ssa.Value]*Term
-	depth int
+	memo      map[ssa.Value]*Term
+	depth     int
+	truncated bool // a depth cut-off happened while rendering the current value
 }
 
 func NewTermer() *termer { return &termer{memo: map[ssa.Value]*Term{}} }
 
-const maxTermDepth = 14
+const maxTermDepth = 18
 
 func typeShort(t types.Type) string { return short(stripTypeArgs(t.String())) }
 
@@ -186,14 +187,22 @@ func (tm *termer) Of(v ssa.Value) *Term {
 		return t
 	}
 	if tm.depth > maxTermDepth {
+		tm.truncated = true
 		return &Term{Op: "deep", V: v}
 	}
 	tm.memo[v] = nil
 	tm.depth++
+	outer := tm.truncated
+	tm.truncated = false
 	t := tm.render(v)
 	tm.depth--
 	t.V = v
-	tm.memo[v] = t
+	if tm.truncated {
+		delete(tm.memo, v) // do not cache a rendering that was cut off because of where it was reached from
+	} else {
+		tm.memo[v] = t
+	}
+	tm.truncated = outer || tm.truncated
 	return t
 }
 
